@@ -43,8 +43,32 @@ class VLoop(asyncio.SelectorEventLoop):
         super()._run_once()
 
 
-def run(coro_fn, max_iterations=2_000_000, patch_monotonic=True):
+class WallClock(Exception):
+    """generous wall-clock watchdog fired: inconclusive, never a verdict"""
+
+
+def _alarm(signum, frame):
+    raise WallClock("wall-clock watchdog fired")
+
+
+def run(coro_fn, max_iterations=2_000_000, patch_monotonic=True,
+        wall_limit=60):
     """run coro_fn(loop) to completion on a fresh virtual loop"""
+    import signal
+    import threading
+    use_alarm = threading.current_thread() is threading.main_thread()
+    if use_alarm:
+        old_handler = signal.signal(signal.SIGALRM, _alarm)
+        signal.setitimer(signal.ITIMER_REAL, wall_limit)
+    try:
+        return _run(coro_fn, max_iterations, patch_monotonic)
+    finally:
+        if use_alarm:
+            signal.setitimer(signal.ITIMER_REAL, 0)
+            signal.signal(signal.SIGALRM, old_handler)
+
+
+def _run(coro_fn, max_iterations, patch_monotonic):
     loop = VLoop()
     asyncio.set_event_loop(loop)
     olds = []
